@@ -113,7 +113,7 @@ def case_st(draw):
     elif op == "reindex_axis":
         rel, new = draw(gen.related_labels(labs, kind, relation=draw(st.sampled_from(["permuted", "subset", "superset", "overlapping", "disjoint", "equal"]))))
         method = draw(st.sampled_from([None, None, None, "left", "right"]))
-        p = {"new": new, "fill": draw(st.sampled_from(["nan", "nan", -1])), "raise_error": draw(st.sampled_from([False, False, True])) if method is None else False,
+        p = {"new": new, "fill": draw(st.sampled_from(["nan", "nan", -1, 0])), "raise_error": draw(st.sampled_from([False, False, True])) if method is None else False,
              "method": method, "as": draw(st.sampled_from(["list", "axis"])), "by": draw(st.sampled_from(["name", "pos"]))}
     elif op == "reindex_like":
         tl = {}
@@ -124,7 +124,7 @@ def case_st(draw):
     elif op in ("interp_axis", "interp_like"):
         lo, hi = min(labs), max(labs)
         pts = draw(st.lists(st.sampled_from([lo - 1, lo, hi, hi + 1.5, (lo + hi) / 2.0, lo + 0.25, hi - 0.25] + [float(x) for x in labs]), min_size=1, max_size=4, unique=True))
-        p = {"new": [float(x) for x in pts], "left": draw(st.sampled_from(["nan", -5.0])), "right": draw(st.sampled_from(["nan", 99.0])), "by": draw(st.sampled_from(["name", "pos"]))}
+        p = {"new": [float(x) for x in pts], "left": draw(st.sampled_from(["nan", -5.0, 0])), "right": draw(st.sampled_from(["nan", 99.0, 0.0])), "by": draw(st.sampled_from(["name", "pos"]))}
     elif op in ("ds-scalar", "scalar-ds"):
         p = {"sym": draw(st.sampled_from(["+", "-", "*", "/"])), "s": draw(st.sampled_from([2, 2.5]))}
     elif op == "ds-ds":
